@@ -453,20 +453,20 @@ theorem addLast_spec (s : St) (l : Hdr) (cs : List Cell) (x : Nat) (m : Mem)
       exact setData_alloc_ne s x b (Nat.ne_of_lt hlt)
 
 
-/-- **`link_behind(base, ins)`** for a node `ins` that is not linked anywhere (`next = prev = NULL`): it is linked in
-directly in front of `base` -/
-theorem linkBehind_fresh {h : Heap} {pre post : List Cell} {a : Cell} (new x : Nat)
+/-- the second half of `link_behind(base, ins)` for a node `ins` outside the chain (whatever its own link fields hold): it is
+linked in directly in front of `base` -/
+theorem linkBehindCore_spec {h : Heap} {pre post : List Cell} {a : Cell} (new x : Nat) (nx pv : Option Nat)
     (hs : Seg h none (pre ++ a :: post) none) (hn : (idsOf (pre ++ a :: post)).Nodup)
-    (hnew : new ∉ idsOf (pre ++ a :: post)) (hx : h new = some ⟨x, none, none⟩) :
-    Seg (linkBehind h a.1 new) none (pre ++ (new, x) :: a :: post) none ∧
-    (∀ b, b ∉ idsOf (pre ++ a :: post) → b ≠ new → (linkBehind h a.1 new) b = h b) := by
+    (hnew : new ∉ idsOf (pre ++ a :: post)) (hx : h new = some ⟨x, nx, pv⟩) :
+    Seg (linkBehindCore h a.1 new) none (pre ++ (new, x) :: a :: post) none ∧
+    (∀ b, b ∉ idsOf (pre ++ a :: post) → b ≠ new → (linkBehindCore h a.1 new) b = h b) := by
   obtain ⟨n1, n2, na1, na2, nd12, _⟩ := nodup_append_cons hn
   obtain ⟨s1, ha, s2⟩ := Seg_split hs
   have hnp : new ∉ idsOf pre := fun hm => hnew (by simp [hm])
   have hnq : new ∉ idsOf post := fun hm => hnew (by simp [hm])
   have hna : new ≠ a.1 := fun e => hnew (by simp [e])
-  unfold linkBehind
-  simp only [nd_of hx, nd_of ha]
+  unfold linkBehindCore
+  simp only [nd_of ha]
   rcases eq_nil_or_snoc pre with e | ⟨ys, b, e⟩
   · subst e
     simp only [lastOr_nil, List.nil_append]
@@ -505,6 +505,17 @@ theorem linkBehind_fresh {h : Heap} {pre post : List Cell} {a : Cell} (new x : N
     · have hca : c ≠ a.1 := fun e => hc (by simp [e])
       have hcb : c ≠ b.1 := fun e => hc (by simp [e])
       rw [setPrev, upd_ne _ _ _ _ hca, setNext, upd_ne _ _ _ _ hcn, setNext, upd_ne _ _ _ _ hcb, setPrev, upd_ne _ _ _ _ hcn]
+
+/-- **`link_behind(base, ins)`** for a node `ins` that is not linked anywhere: it is linked in directly in front of `base` -/
+theorem linkBehind_fresh {h : Heap} {pre post : List Cell} {a : Cell} (new x : Nat)
+    (hs : Seg h none (pre ++ a :: post) none) (hn : (idsOf (pre ++ a :: post)).Nodup)
+    (hnew : new ∉ idsOf (pre ++ a :: post)) (hx : h new = some ⟨x, none, none⟩) :
+    Seg (linkBehind h a.1 new) none (pre ++ (new, x) :: a :: post) none ∧
+    (∀ b, b ∉ idsOf (pre ++ a :: post) → b ≠ new → (linkBehind h a.1 new) b = h b) := by
+  have hg : linkGap h new = h := by unfold linkGap; simp only [nd_of hx]
+  unfold linkBehind
+  rw [hg]
+  exact linkBehindCore_spec new x none none hs hn hnew hx
 
 /-- **`link_after(base, ins)`** for a node `ins` that is not linked anywhere: it is linked in directly behind `base` -/
 theorem linkAfter_fresh {h : Heap} {pre post : List Cell} {a : Cell} (new x : Nat)
